@@ -51,6 +51,9 @@ def main(tier, seed):
     for s in skels:
         extra = dict(sizecap=32 * 2 ** 20, cfg=dict(eager_div=6)) if 'X' in s else {}
         jobs.append(dict(skel=s, **extra))
+    # topic names around the largest one whose header still fits (rkyv: 32 + roundup8(len) <= 254): 216 fits, 217..224 do not
+    for tl in ([216, 217, 224] if tier == 'quick' else [215, 216, 217, 220, 224, 225, 232]):
+        jobs.insert(0, dict(skel='a,A2:T,a:T,n,n:T,n:T,n:T,n:T', topic_len=tl, sizecap=4096))
     agg = runner.explore_jobs('rsym.drivers.dual', 'mk', docs, jobs, dict(seed=seed), min(12, runner.ncpu()), 240 if tier == 'quick' else 2400)
     rep.absorb(agg)
     res = agg['results']
